@@ -32,8 +32,10 @@ SPECS["C36"] = dict(
     harness="C36_base64.cc", units=[],
     entries=dict(
         quick=[dict(name="c36_roundtrip", bounds="all inputs of 0..9 bytes (fully symbolic), encoder fed in two pieces at every split point", reach=["done"], sample_every=3),
-               dict(name="c36_decode_arbitrary", bounds="all encodings of 1..5 arbitrary bytes; output buffer of exactly BASE64_DECODE_LENGTH", reach=["accepted", "rejected"])],
+               dict(name="c36_decode_arbitrary", bounds="all encodings of 1..5 arbitrary bytes; output buffer of exactly BASE64_DECODE_LENGTH", reach=["accepted", "rejected"]),
+               dict(name="c36_decode_stream", bounds="one decode context fed by two base64_decode_update() calls of 1..3 arbitrary bytes each (at most 4 in total), each call writing into a heap block of exactly BASE64_DECODE_LENGTH(chunk length) bytes", reach=["accepted", "rejected"])],
         thorough=[dict(name="c36_roundtrip", bounds="all inputs of 0..12 bytes", reach=["done"], sample_every=3),
+                  dict(name="c36_decode_stream", bounds="as quick with at most 5 bytes in total", reach=["accepted", "rejected"]),
                   dict(name="c36_decode_arbitrary", bounds="all encodings of 1..6 arbitrary bytes", reach=["accepted", "rejected"])]),
     timeout=dict(quick=240, thorough=1500),
     stubs=["HAVE_NETTLE_BASE64_H forced to 0 in the harness TU: the bundled lib/base64.cc is what is encoded (this build links libnettle instead, a binary that cannot be encoded)"],
